@@ -201,7 +201,7 @@ var c26Datasets = []string{"ds", "my dataset", "team/prod", "dätäset-ü", "pct
 
 var c26PadBase = func() string {
 	var b strings.Builder
-	for b.Len() < 1_400_000 {
+	for b.Len() < 5_300_000 {
 		fmt.Fprintf(&b, "pad-%06d-abcdefghijklmnopqrstuvwxyz0123456789;", b.Len())
 	}
 	return b.String()
@@ -337,6 +337,14 @@ func c26Plan_(rng *verifkit.Rand, caseNo int, overhead int, thorough bool) *c26P
 			}
 			newEv(rng.Intn(len(p.Dests)), verifkit.Pick(rng, 0, 1, 10, 200, 2000, 40_000), class)
 		}
+		if rng.Chance(0.06) {
+			// a single event that exceeds even the request limit, queued among the
+			// small events of one destination (never transmitted, so cheap)
+			newEv(rng.Intn(len(p.Dests)), c26Huge(rng)-overhead, "deliverable")
+			if rng.Bool() {
+				verifkit.Shuffle(rng, p.Events)
+			}
+		}
 	case "medium":
 		p.MaxBatch = verifkit.Pick(rng, 2, 3, 5, 10, 50)
 		n := rng.Range(3, 20)
@@ -403,6 +411,9 @@ func c26Plan_(rng *verifkit.Rand, caseNo int, overhead int, thorough bool) *c26P
 		for i := 0; i < ns; i++ {
 			newEv(otherDest(), verifkit.Pick(rng, 0, 100, 5000), "deliverable")
 		}
+		if rng.Chance(0.35) {
+			newEv(rng.Intn(len(p.Dests)), c26Huge(rng)-overhead, "deliverable")
+		}
 		// keep grouped events adjacent half of the time, interleave otherwise
 		if rng.Bool() {
 			verifkit.Shuffle(rng, p.Events)
@@ -441,6 +452,11 @@ func c26Plan_(rng *verifkit.Rand, caseNo int, overhead int, thorough bool) *c26P
 		p.Steps[i].AdvNs = verifkit.Pick(rng, 0, 1, bt/16, bt/8+3, bt/4, bt/4-1, bt/2, bt, bt+bt/4, bt+bt/3, 2*bt)
 	}
 	return p
+}
+
+// c26Huge picks the serialised size of a single event around and above the 5 MB request limit.
+func c26Huge(rng *verifkit.Rand) int {
+	return c26MaxBody + verifkit.Pick(rng, -6, -4, 0, 1, 1, 5, 100_000, 200_000)
 }
 
 func c26MakeAction(rng *verifkit.Rand, kind string) c26Action {
@@ -1021,19 +1037,22 @@ func c26Respond(w http.ResponseWriter, r *http.Request, act c26Action, n int, cl
 // one scripted run
 
 type c26Outcome struct {
-	plan          *c26Plan
-	reqs          []c26Req // final log (after the servers were closed)
-	atStop        int      // number of log records when Stop returned
-	pendAtStop    map[string]bool
-	gauge         int64
-	gaugeNames    []string
-	respErrors    int64
-	syncLost      string
-	hangFallbacks int
-	foreign       int
-	gridLost      bool
-	overdue       *c26Overdue
-	stopHung      bool
+	plan            *c26Plan
+	reqs            []c26Req // final log (after the servers were closed)
+	atStop          int      // number of log records when Stop returned
+	pendAtStop      map[string]bool
+	gauge           int64
+	gaugeNames      []string
+	respErrors      int64
+	syncLost        string
+	hangFallbacks   int
+	foreign         int
+	gridLost        bool
+	overdue         *c26Overdue
+	stopHung        bool
+	stopFakeWait    time.Duration
+	abandonedBefore int
+	stopRealWait    time.Duration
 }
 
 type c26Runner struct {
@@ -1067,6 +1086,10 @@ type c26Overdue struct {
 // watchdog budgets shrink after the first loss of synchronisation in a process
 // so that a broken tree produces its verdict instead of a go test timeout.
 var c26SyncLosses int
+
+// c26Abandoned counts transmissions whose Stop never returned; their goroutines
+// cannot be stopped and keep burning CPU in this process.
+var c26Abandoned int
 
 func c26Watchdog(d time.Duration) time.Time {
 	if c26SyncLosses >= 3 {
@@ -1211,7 +1234,14 @@ func c26Execute(t *testing.T, p *c26Plan) *c26Outcome {
 		lg.mu.Unlock()
 		done <- n
 	}()
-	watchdog := time.After(90 * time.Second)
+	// Bounded progress: Stop has to return within a generous real-time budget while
+	// fake time is pushed far beyond every Retry-After (7 s per iteration below).
+	stopBudget := 75 * time.Second
+	if c26SyncLosses > 0 {
+		stopBudget = 12 * time.Second
+	}
+	stopCalledAt := clock.Now()
+	watchdog := time.After(stopBudget)
 	// the fake clock stays put until everything for prompt hosts has arrived
 	// (arrival instants of the flush are then comparable with enqueue instants)
 	hold := c26Watchdog(40 * time.Second)
@@ -1224,7 +1254,22 @@ wait:
 			out.atStop = n
 			break wait
 		case <-watchdog:
+			if clock.Now().Sub(stopCalledAt) < 10*time.Minute {
+				clock.Advance(10 * time.Minute)
+				time.Sleep(2 * time.Second)
+				select {
+				case n := <-done:
+					out.atStop = n
+					break wait
+				default:
+				}
+			}
 			out.stopHung = true
+			out.stopFakeWait = clock.Now().Sub(stopCalledAt)
+			out.stopRealWait = stopBudget
+			out.abandonedBefore = c26Abandoned
+			c26Abandoned++
+			c26SyncLosses++
 			break wait
 		default:
 			if holding {
@@ -1490,7 +1535,31 @@ func c26Check(run *verifkit.Run, o *c26Outcome) {
 	}
 
 	if o.stopHung {
-		run.Inconclusive("Stop did not return within the 90 s watchdog while the fake clock was advanced")
+		// the transmission is abandoned (its goroutines cannot be stopped); what it
+		// had settled by then is part of the witness
+		cls := "no-event-over-5MB"
+		nUnsettled := 0
+		seenIDs := map[string]bool{}
+		for _, rq := range o.reqs {
+			for _, id := range rq.IDs {
+				seenIDs[id] = true
+			}
+		}
+		for _, e := range p.Events {
+			if e.Pred > c26MaxBody-8 {
+				cls = "with-event-over-5MB"
+			}
+			if e.Class == "deliverable" && !seenIDs[e.ID] {
+				nUnsettled++
+			}
+		}
+		if cls == "no-event-over-5MB" && o.abandonedBefore > 0 {
+			run.Inconclusive(fmt.Sprintf("Stop did not return within %v in a process that already holds %d abandoned, still spinning transmissions", o.stopRealWait, o.abandonedBefore))
+			return
+		}
+		run.Violation("C26/stop/did-not-return/"+cls,
+			fmt.Sprintf("Stop had not returned after %v of real time and %v of fake time; %d deliverable events were in no request, %s is %d, *_response_errors %d", o.stopRealWait, o.stopFakeWait.Round(time.Second), nUnsettled, strings.Join(o.gaugeNames, ","), o.gauge, o.respErrors),
+			witness{Plan: &briefPlan, Reqs: allReqs()})
 		return
 	}
 
@@ -1819,7 +1888,7 @@ func c26Calibrate(t *testing.T) int {
 func TestVerif_C26(t *testing.T) {
 	run := verifkit.Start(t, "C26", "transmit")
 	defer run.Finish()
-	run.Rule("one case = one scripted run of a real DirectTransmission (fake clock) against 1-3 fake API hosts: PRNG-chosen MaxBatchSize/BatchTimeout/compression/type, 1-4 destinations (host,key,dataset incl. datasets needing URL escaping) plus occasionally an unreachable one, event sizes by profile (small; medium up to 400 KB; large = groups whose body totals land on 5 MB-100KB..5 MB+100KB incl. +-1..5 bytes, single events of 1 MB-1000..1 MB+200000 incl. exactly 1 MB and 1 MB+1; hang = small events with hanging answers in the palette; a hanging answer makes the client's wait time out at once by expiring the read deadline of its connection, no real timeout is used), enqueue steps from 1-4 goroutines, some racing the dispatcher tick, fake-clock advances of 0..2xBatchTimeout split at tick instants, per-host answer scripts drawn from a 0-3 kind fault palette (all-202 json/msgpack, per-event statuses, short/long list, garbage, empty, 400..504, 429/503 with Retry-After absent/0.01/1/59/59.9/60/61/3600/0/-1/HTTP-dates/garbage, hang, connection close; some hosts instead run a rate-limit window: 429/503 with Retry-After r in 1..59 s for every request from a trigger - the n-th request or the first request after Stop was called - until the fake clock reaches trigger+r, all-202 otherwise), then Stop while events are pending and senders sleep on Retry-After. Non-trivial = at least one request observed; distinct = profile x answer kinds served x {retried, near-5MB body, >1MB event, pending at Stop} x topology")
+	run.Rule("one case = one scripted run of a real DirectTransmission (fake clock) against 1-3 fake API hosts: PRNG-chosen MaxBatchSize/BatchTimeout/compression/type, 1-4 destinations (host,key,dataset incl. datasets needing URL escaping) plus occasionally an unreachable one, event sizes by profile (small; medium up to 400 KB; large = groups whose body totals land on 5 MB-100KB..5 MB+100KB incl. +-1..5 bytes, single events of 1 MB-1000..1 MB+200000 incl. exactly 1 MB and 1 MB+1, occasionally one event of 5 MB-6..5.2 MB, also among small events; hang = small events with hanging answers in the palette; a hanging answer makes the client's wait time out at once by expiring the read deadline of its connection, no real timeout is used), enqueue steps from 1-4 goroutines, some racing the dispatcher tick, fake-clock advances of 0..2xBatchTimeout split at tick instants, per-host answer scripts drawn from a 0-3 kind fault palette (all-202 json/msgpack, per-event statuses, short/long list, garbage, empty, 400..504, 429/503 with Retry-After absent/0.01/1/59/59.9/60/61/3600/0/-1/HTTP-dates/garbage, hang, connection close; some hosts instead run a rate-limit window: 429/503 with Retry-After r in 1..59 s for every request from a trigger - the n-th request or the first request after Stop was called - until the fake clock reaches trigger+r, all-202 otherwise), then Stop while events are pending and senders sleep on Retry-After. Non-trivial = at least one request observed; distinct = profile x answer kinds served x {retried, near-5MB body, >1MB event, pending at Stop} x topology")
 	run.Assume("1 MB = 1,000,000 and 5 MB = 5,000,000 bytes (the Honeycomb API limits the package constants encode); body size is the serialized msgpack body before compression")
 	run.Assume("clockwork.FakeClock is the transmission's only clock for batching and Retry-After sleeps; the real client send timeout (30 s) never fires; a timed-out exchange is one whose httpClient.Do returned a net.Error with Timeout()==true, produced by expiring the connection read deadline")
 	run.Assume("dispatch deadline is checked for hosts whose script never makes a sender sleep or hang (a later sub-batch of a split batch is sent only after the previous one was answered)")
